@@ -940,6 +940,35 @@ def stage9():
     return done
 
 
+# ------------------------------------------------------------------ stage 8b
+C03_STAGE8B = """
+(* ---- third wave (stage 8b): helpers.is_real_path_inside as translated on this run.  The generated function takes what
+   os.path.realpath(target) answered (real0 : str) in place of target; os.path.normcase is the identity on posix.  For real paths
+   given as lists of names (not empty, no "/"), rendered "/" + "/".join(names) ("/" for the root) the way os.path.realpath
+   returns them, its verdict is the component-wise prefix test of FS.real_inside: the check the theorems above rely on. ---- *)
+Theorem C03_gen_is_real_path_inside : forall r root : list str,
+  Forall PathFsGen.name_ok r -> Forall PathFsGen.name_ok root ->
+  HelpersPath2.is_real_path_inside (PathFsGen.render r) (PathFsGen.render root) = Ok (prefixb root r).
+Proof. exact PathFsGen.gen_is_real_path_inside. Qed.
+Print Assumptions C03_gen_is_real_path_inside.
+
+Theorem C03_gen_is_real_path_inside_fs : forall f cwd p (r root : list str), py_realpath f cwd p = Some r ->
+  Forall PathFsGen.name_ok r -> Forall PathFsGen.name_ok root ->
+  HelpersPath2.is_real_path_inside (PathFsGen.render r) (PathFsGen.render root) = Ok (real_inside f cwd root p).
+Proof. exact PathFsGen.gen_is_real_path_inside_fs. Qed.
+Print Assumptions C03_gen_is_real_path_inside_fs.
+"""
+
+
+def stage8b():
+    done = []
+    if patch("coq/props/C03.v", "C03_gen_is_real_path_inside", [], C03_STAGE8B):
+        done.append("props/C03.v")
+    if add_gen_deps("tools/harness/c03.py", ["is_real_path_inside"]):
+        done.append("tools/harness/c03.py (GEN_DEPS)")
+    return done
+
+
 if __name__ == "__main__":
     print("stage 1:", stage1())
     print("stage 2:", stage2())
@@ -951,3 +980,4 @@ if __name__ == "__main__":
     print("stage 7:", stage7())
     print("stage 8:", stage8())
     print("stage 9:", stage9())
+    print("stage 8b:", stage8b())
